@@ -1,4 +1,5 @@
 """URL family: C12 (RFC 3986 location of $ref targets), C11 (equivalent spellings of the root location)."""
+import hashlib
 import json
 import os
 
@@ -228,13 +229,13 @@ def check_c05(ctx):
         obsfiles = vlib.run_worker(ctx, 'resolve', fe.gen(ctx, *gs),
                                    ['-layouts', ','.join(lay), '-rots', str(sd['rot']), '-names', 'special', '-spell', 'varied', '-site', site],
                                    prefix='res%d' % gi)
-        for o, v in vlib.run_oracle(ctx, 'ResOracle', obsfiles):
+        for o, v in vlib.run_oracle(ctx, 'ResOracle', obsfiles, lazy=True):
             rep.evaluations += 1
             if o['outcome'] == 'harness-error':
                 raise Broken('resolve harness: ' + o['err'])
             if not v['aimok']:
                 raise Broken('generator and RefGraph!Designates disagree on %s (model error): %s' % (o['refs'], o['concrete'][:2]))
-            rep.nontrivial.add((json.dumps(o['abstract']), '+'.join(o['layout']), o['refs'], o['mode'], o['api']))
+            rep.nontrivial.add(hashlib.sha1(json.dumps([o['abstract'], o['layout'], o['refs'], o['mode'], o['api']]).encode()).digest()[:8])
             for pn in ('c05val', 'c05err', 'c05root', 'c05total'):
                 rep.count(pn + ':' + v[pn])
                 if v[pn] == 'fail':
@@ -283,7 +284,7 @@ def replay_resolve(ctx, rec):
     open(f, 'w').write(json.dumps(case) + '\n')
     obsfiles = vlib.run_worker(ctx, 'resolve', f, [], shards=1, prefix='replay')
     bad = 0
-    for o, v in vlib.run_oracle(ctx, 'ResOracle', obsfiles):
+    for o, v in vlib.run_oracle(ctx, 'ResOracle', obsfiles, lazy=True):
         if o['refs'] == c['refs'] and o['mode'] == c['mode'] and o['api'] == c['api']:
             print(json.dumps({'ref': o['refs'], 'mode': o['mode'], 'outcome': o['outcome'], 'err': o['err'], 'result': o['resjson'], 'verdict': v}))
             if rec['predicate'] in v and v[rec['predicate']] == 'fail':
